@@ -584,6 +584,16 @@ CliDiffClause(ev) ==
      ELSE IF ev.d.y # 0 \/ ev.d.mo # 0 THEN "printed-duration-not-exact"
      ELSE IF ev.d.len # dist THEN "first+d#second"
      ELSE "ok"
+\* --as-total with a duration argument: the exact length, or the rough length (year = the calendar's common year,
+\* month = 30 days) when the duration has months or years, in the requested unit
+CliTotalClause(ev) ==
+  LET m == Meaning(ev.cal)  v == DurTextValue(ev.gd)
+      e == IF v.y = 0 /\ v.mo = 0 THEN v.len ELSE DurRough(m, v) IN
+  IF ev.traceback THEN "traceback-" \o ev.cls
+  ELSE IF ev.code # 0 THEN "exit-status-" \o ToString(ev.code)
+  ELSE IF ~ev.parsed THEN "printed-total-unreadable"
+  ELSE IF ~Near3(ev.tlen, e, 50) THEN "--as-total-differs-from-the-duration"
+  ELSE "ok"
 CliBadClause(ev) ==
   IF ev.traceback THEN "traceback-" \o ev.cls
   ELSE IF ev.code = 0 THEN "malformed-argument-accepted"
@@ -679,6 +689,7 @@ Clause(ev) ==
     [] ev.op = "CliPoint" -> CliPointClause(ev)
     [] ev.op = "CliDiff"  -> CliDiffClause(ev)
     [] ev.op = "CliBad"   -> CliBadClause(ev)
+    [] ev.op = "CliTotal" -> CliTotalClause(ev)
     [] ev.op = "CliRec"   -> CliRecClause(ev)
     [] ev.op = "ParseTrunc" -> ParseTruncClause(ev)
     [] ev.op = "DurOp1"   -> DurOp1Clause(ev)
@@ -694,7 +705,7 @@ Step ==
        /\ rej' = RejInc(c)
        /\ mode' = IF ev.op = "Begin" THEN ev.cm
                   ELSE IF ev.op = "SetMode" THEN Meaning(ev.sp)
-                  ELSE IF ev.op \in {"CliPoint", "CliDiff", "CliBad", "CliRec"} THEN Meaning(ev.cal) ELSE mode
+                  ELSE IF ev.op \in {"CliPoint", "CliDiff", "CliBad", "CliRec", "CliTotal"} THEN Meaning(ev.cal) ELSE mode
        /\ it' = CASE ev.op = "Begin" -> NoIt
                    [] ev.op = "IterOpen" -> [open |-> TRUE, inp |-> ev.inp, k |-> 0, last |-> ev.inp.a,
                                              forward |-> ev.forward, complete |-> FALSE]
